@@ -813,4 +813,348 @@ theorem local_firstMatch (s s' : List Char) (o : LexOut) :
       rw [hf]
       exact local_firstMatch s s' o as hall.2 h h2 (fun b hb' => hb b (by simp [hb']))
 
+/-! ### the bound: what a failing alternative examined lies within the winner's look-ahead -/
+
+theorem mismatchExt_le_run (f : Char → Bool) : ∀ (p s : List Char), (∀ x ∈ p, f x = true) →
+    mismatchExt p s ≤ (s.takeWhile f).length + 1
+  | [], _, _ => by simp [mismatchExt]
+  | _ :: _, [], _ => by simp [mismatchExt]
+  | a :: as, c :: cs, hp => by
+    simp only [mismatchExt]
+    split
+    · rename_i hac
+      have hac' : a = c := by simpa using hac
+      have hfc : f c = true := by rw [← hac']; exact hp a (by simp)
+      have := mismatchExt_le_run f as cs (fun x hx => hp x (by simp [hx]))
+      simp only [List.takeWhile, hfc, List.length_cons]
+      omega
+    · omega
+
+theorem prefix_le_run (f : Char → Bool) {p s r : List Char} (h : stripPrefix p s = some r)
+    (hp : ∀ x ∈ p, f x = true) : p.length ≤ (s.takeWhile f).length := by
+  rw [stripPrefix_some_iff] at h
+  subst h
+  induction p with
+  | nil => simp
+  | cons a as ih =>
+    have hfa := hp a (by simp)
+    simp only [List.cons_append, List.takeWhile, hfa, List.length_cons]
+    have := ih (fun x hx => hp x (by simp [hx]))
+    omega
+
+theorem extKeyword_le_run (k : Kind) (p0 : Char) (ps rest : List Char)
+    (hsp : Gen.spelling k = some (p0 :: ps)) (hps : ∀ x ∈ ps, isAlnumTrunc x = true) :
+    extKeyword k (p0 :: rest) ≤ (rest.takeWhile isAlnumTrunc).length + 2 := by
+  simp only [extKeyword, hsp, stripPrefix, mismatchExt, beq_self_eq_true, if_true, List.length_cons]
+  cases h : stripPrefix ps rest with
+  | some r =>
+    have := prefix_le_run isAlnumTrunc h hps
+    simp only; omega
+  | none =>
+    have := mismatchExt_le_run isAlnumTrunc ps rest hps
+    simp only; omega
+
+set_option maxRecDepth 4000
+
+macro "eval_sym" : tactic => `(tactic|
+  simp [lexOne, Gen.altOrder, firstMatch, lexItem, lexComment, lexSymbol, lexKeyword, Gen.spelling, Kind.plain,
+    stripPrefix])
+
+/-- the alternatives after the fixed spellings -/
+def tailAlts : List AltItem := [.char, .hex, .int, .ident, .unknown]
+
+theorem lexChar_ne {c : Char} {rest : List Char} (h : c ≠ '\'') : lexChar (c :: rest) = none := by
+  unfold lexChar
+  split
+  · rename_i heq; simp [h] at heq
+  · rename_i heq; simp [h] at heq
+  · rfl
+
+theorem lexHex_ne {c : Char} {rest : List Char} (h : c ≠ '0') : lexHex (c :: rest) = none := by
+  unfold lexHex
+  split
+  · rename_i heq; simp [h] at heq
+  · rfl
+
+theorem lexInt_ne {c : Char} {rest : List Char} (h : isDigit c = false) : lexInt (c :: rest) = none := by
+  simp [lexInt, List.takeWhile, h]
+
+theorem lexInt_digit {c : Char} {rest : List Char} (h : isDigit c = true) :
+    ∃ o, lexInt (c :: rest) = some o := by
+  simp only [lexInt, List.takeWhile, h]
+  simp only [List.isEmpty_cons, Bool.false_eq_true, if_false]
+  split <;> exact ⟨_, rfl⟩
+
+theorem tail_alpha {c : Char} {rest : List Char} (h1 : c ≠ '\'') (h2 : c ≠ '0') (h3 : isDigit c = false)
+    (h4 : (isAlpha c || c == '_') = true) :
+    firstMatch tailAlts (c :: rest) =
+      some { ty := .Ident (c :: rest.takeWhile isAlnumTrunc), n := 1 + (rest.takeWhile isAlnumTrunc).length } := by
+  simp only [tailAlts, firstMatch, lexItem, lexChar_ne h1, lexHex_ne h2, lexInt_ne h3, lexIdent, h4, if_true]
+
+/-- a failing keyword alternative that matched its first letter: the identifier wins and covers
+    everything the keyword examined -/
+theorem bound_keyword (k : Kind) (p0 : Char) (ps rest : List Char) (o : LexOut)
+    (hsp : Gen.spelling k = some (p0 :: ps)) (hps : ∀ x ∈ ps, isAlnumTrunc x = true)
+    (heval : lexOne (p0 :: rest) = firstMatch (.keyword k :: tailAlts) (p0 :: rest))
+    (h1 : p0 ≠ '\'') (h2 : p0 ≠ '0') (h3 : isDigit p0 = false) (h4 : (isAlpha p0 || p0 == '_') = true)
+    (h : lexOne (p0 :: rest) = some o) (hf : lexKeyword k (p0 :: rest) = none) :
+    extKeyword k (p0 :: rest) ≤ o.n + Gen.lookAhead o.ty.kind := by
+  rw [heval] at h
+  simp only [firstMatch, lexItem, hf] at h
+  rw [tail_alpha h1 h2 h3 h4] at h
+  cases h
+  have := extKeyword_le_run k p0 ps rest hsp hps
+  show extKeyword k (p0 :: rest) ≤ 1 + (rest.takeWhile isAlnumTrunc).length + 1
+  omega
+
+theorem extSymbol_le (k : Kind) (p s : List Char) (hsp : Gen.spelling k = some p) :
+    extSymbol k s ≤ p.length := by
+  simp only [extSymbol, hsp]; exact mismatchExt_le p s
+
+/-- a failing two-character symbol whose first character matched: the one-character symbol
+    wins, and it has look-ahead 1 -/
+theorem bound_sym2 (k k1 : Kind) (p0 p1 : Char) (ty1 : TokenType) (rest : List Char) (o : LexOut)
+    (hsp : Gen.spelling k = some [p0, p1])
+    (heval : lexOne (p0 :: rest) = firstMatch [.symbol k, .symbol k1] (p0 :: rest))
+    (hsp1 : Gen.spelling k1 = some [p0]) (hpl : k1.plain = some ty1) (hla : Gen.lookAhead ty1.kind = 1)
+    (h : lexOne (p0 :: rest) = some o) (hf : lexSymbol k (p0 :: rest) = none) :
+    extSymbol k (p0 :: rest) ≤ o.n + Gen.lookAhead o.ty.kind := by
+  rw [heval] at h
+  simp only [firstMatch, lexItem] at h
+  rw [hf] at h
+  simp only [lexSymbol, hsp1, hpl, stripPrefix, beq_self_eq_true, if_true] at h
+  cases h
+  have := extSymbol_le k [p0, p1] (p0 :: rest) hsp
+  simp only [List.length_cons, List.length_nil] at this
+  show extSymbol k (p0 :: rest) ≤ 1 + Gen.lookAhead ty1.kind
+  omega
+
+theorem lexOne_i (rest : List Char) :
+    lexOne ('i' :: rest) = firstMatch (.keyword .If :: tailAlts) ('i' :: rest) := by
+  unfold tailAlts; eval_sym
+theorem lexOne_e (rest : List Char) :
+    lexOne ('e' :: rest) = firstMatch (.keyword .Else :: tailAlts) ('e' :: rest) := by
+  unfold tailAlts; eval_sym
+theorem lexOne_w (rest : List Char) :
+    lexOne ('w' :: rest) = firstMatch (.keyword .While :: tailAlts) ('w' :: rest) := by
+  unfold tailAlts; eval_sym
+theorem lexOne_a (rest : List Char) :
+    lexOne ('a' :: rest) = firstMatch (.keyword .Array :: tailAlts) ('a' :: rest) := by
+  unfold tailAlts; eval_sym
+theorem lexOne_o (rest : List Char) :
+    lexOne ('o' :: rest) = firstMatch (.keyword .Of :: tailAlts) ('o' :: rest) := by
+  unfold tailAlts; eval_sym
+theorem lexOne_p (rest : List Char) :
+    lexOne ('p' :: rest) = firstMatch (.keyword .Proc :: tailAlts) ('p' :: rest) := by
+  unfold tailAlts; eval_sym
+theorem lexOne_r (rest : List Char) :
+    lexOne ('r' :: rest) = firstMatch (.keyword .Ref :: tailAlts) ('r' :: rest) := by
+  unfold tailAlts; eval_sym
+theorem lexOne_t (rest : List Char) :
+    lexOne ('t' :: rest) = firstMatch (.keyword .Type :: tailAlts) ('t' :: rest) := by
+  unfold tailAlts; eval_sym
+theorem lexOne_v (rest : List Char) :
+    lexOne ('v' :: rest) = firstMatch (.keyword .Var :: tailAlts) ('v' :: rest) := by
+  unfold tailAlts; eval_sym
+theorem lexOne_lt (rest : List Char) :
+    lexOne ('<' :: rest) = firstMatch [.symbol .Le, .symbol .Lt] ('<' :: rest) := by eval_sym
+theorem lexOne_gt (rest : List Char) :
+    lexOne ('>' :: rest) = firstMatch [.symbol .Ge, .symbol .Gt] ('>' :: rest) := by eval_sym
+theorem lexOne_colon (rest : List Char) :
+    lexOne (':' :: rest) = firstMatch [.symbol .Assign, .symbol .Colon] (':' :: rest) := by eval_sym
+theorem lexOne_slash (rest : List Char) :
+    lexOne ('/' :: rest) = firstMatch [.comment, .symbol .Divide] ('/' :: rest) := by eval_sym
+theorem lexOne_zero (rest : List Char) :
+    lexOne ('0' :: rest) = firstMatch tailAlts ('0' :: rest) := by unfold tailAlts; eval_sym
+theorem lexOne_tick (rest : List Char) :
+    lexOne ('\'' :: rest) = firstMatch tailAlts ('\'' :: rest) := by unfold tailAlts; eval_sym
+
+theorem mismatchExt_first_ne {p0 c : Char} {ps rest : List Char} (h : ¬ mismatchExt (p0 :: ps) (c :: rest) ≤ 1) :
+    c = p0 := by
+  simp only [mismatchExt] at h
+  split at h
+  · rename_i hc; exact (eq_of_beq hc).symm
+  · omega
+
+theorem take_len_add (pre rest : List Char) (k : Nat) :
+    (pre ++ rest).take (pre.length + k) = pre ++ rest.take k := by
+  induction pre with
+  | nil => simp
+  | cons x xs ih =>
+    simp only [List.cons_append, List.length_cons]
+    rw [show xs.length + 1 + k = (xs.length + k) + 1 by omega, List.take_succ_cons, ih]
+
+/-- **Bound**: whatever a failing alternative examined lies within the winner's characters plus
+    its look-ahead. -/
+theorem bound (s : List Char) (o : LexOut) (h : lexOne s = some o) :
+    ∀ a ∈ Gen.altOrder, lexItem a s = none → ext a s ≤ o.n + Gen.lookAhead o.ty.kind := by
+  intro a ha hf
+  have hpos := (lexOne_ok h).pos
+  by_cases hle : ext a s ≤ 1
+  · omega
+  cases s with
+  | nil => have := (lexOne_ok h).le; simp at this; omega
+  | cons c rest =>
+  simp only [Gen.altOrder, List.mem_cons, List.not_mem_nil, or_false] at ha
+  rcases ha with rfl | rfl | rfl | rfl | rfl | rfl | rfl | rfl | rfl | rfl | rfl | rfl | rfl | rfl | rfl | rfl | rfl | rfl | rfl | rfl | rfl | rfl | rfl | rfl | rfl | rfl | rfl | rfl | rfl | rfl | rfl | rfl | rfl | rfl | rfl
+  · -- comment: the text starts with '/', Divide wins (look-ahead 1)
+    have hc : c = '/' := by
+      apply Classical.byContradiction; intro hne
+      exact hle (by simp [ext, extFirst, hne])
+    subst hc
+    rw [lexOne_slash] at h
+    simp only [firstMatch, lexItem] at h
+    rw [show lexComment ('/' :: rest) = none from hf] at h
+    simp only [lexSymbol, Gen.spelling, Kind.plain, stripPrefix, beq_self_eq_true, if_true] at h
+    cases h
+    simp [ext, extFirst]; decide
+  · exact absurd (extSymbol_le .LParen _ (c :: rest) rfl) (by simpa [ext] using hle)
+  · exact absurd (extSymbol_le .RParen _ (c :: rest) rfl) (by simpa [ext] using hle)
+  · exact absurd (extSymbol_le .LBracket _ (c :: rest) rfl) (by simpa [ext] using hle)
+  · exact absurd (extSymbol_le .RBracket _ (c :: rest) rfl) (by simpa [ext] using hle)
+  · exact absurd (extSymbol_le .LCurly _ (c :: rest) rfl) (by simpa [ext] using hle)
+  · exact absurd (extSymbol_le .RCurly _ (c :: rest) rfl) (by simpa [ext] using hle)
+  · exact absurd (extSymbol_le .Eq _ (c :: rest) rfl) (by simpa [ext] using hle)
+  · exact absurd (extSymbol_le .Neq _ (c :: rest) rfl) (by simpa [ext] using hle)
+  · have hc : c = _ := mismatchExt_first_ne (p0 := _) (ps := _) (by simpa [ext, extSymbol, Gen.spelling] using hle)
+    subst hc
+    exact bound_sym2 .Le .Lt _ _ _ rest o rfl (lexOne_lt rest) rfl rfl (by decide) h hf
+  · exact absurd (extSymbol_le .Lt _ (c :: rest) rfl) (by simpa [ext] using hle)
+  · have hc : c = _ := mismatchExt_first_ne (p0 := _) (ps := _) (by simpa [ext, extSymbol, Gen.spelling] using hle)
+    subst hc
+    exact bound_sym2 .Ge .Gt _ _ _ rest o rfl (lexOne_gt rest) rfl rfl (by decide) h hf
+  · exact absurd (extSymbol_le .Gt _ (c :: rest) rfl) (by simpa [ext] using hle)
+  · have hc : c = _ := mismatchExt_first_ne (p0 := _) (ps := _) (by simpa [ext, extSymbol, Gen.spelling] using hle)
+    subst hc
+    exact bound_sym2 .Assign .Colon _ _ _ rest o rfl (lexOne_colon rest) rfl rfl (by decide) h hf
+  · exact absurd (extSymbol_le .Colon _ (c :: rest) rfl) (by simpa [ext] using hle)
+  · exact absurd (extSymbol_le .Comma _ (c :: rest) rfl) (by simpa [ext] using hle)
+  · exact absurd (extSymbol_le .Semic _ (c :: rest) rfl) (by simpa [ext] using hle)
+  · exact absurd (extSymbol_le .Plus _ (c :: rest) rfl) (by simpa [ext] using hle)
+  · exact absurd (extSymbol_le .Minus _ (c :: rest) rfl) (by simpa [ext] using hle)
+  · exact absurd (extSymbol_le .Times _ (c :: rest) rfl) (by simpa [ext] using hle)
+  · exact absurd (extSymbol_le .Divide _ (c :: rest) rfl) (by simpa [ext] using hle)
+  · have hc : c = 'i' := by
+      apply Classical.byContradiction; intro hne
+      apply hle
+      have : ('i' == c) = false := by simpa using Ne.symm hne
+      simp [ext, extKeyword, Gen.spelling, stripPrefix, mismatchExt, this]
+    subst hc
+    exact bound_keyword .If _ _ rest o rfl (by decide) (lexOne_i rest) (by decide) (by decide) (by decide) (by decide) h hf
+  · have hc : c = 'e' := by
+      apply Classical.byContradiction; intro hne
+      apply hle
+      have : ('e' == c) = false := by simpa using Ne.symm hne
+      simp [ext, extKeyword, Gen.spelling, stripPrefix, mismatchExt, this]
+    subst hc
+    exact bound_keyword .Else _ _ rest o rfl (by decide) (lexOne_e rest) (by decide) (by decide) (by decide) (by decide) h hf
+  · have hc : c = 'w' := by
+      apply Classical.byContradiction; intro hne
+      apply hle
+      have : ('w' == c) = false := by simpa using Ne.symm hne
+      simp [ext, extKeyword, Gen.spelling, stripPrefix, mismatchExt, this]
+    subst hc
+    exact bound_keyword .While _ _ rest o rfl (by decide) (lexOne_w rest) (by decide) (by decide) (by decide) (by decide) h hf
+  · have hc : c = 'a' := by
+      apply Classical.byContradiction; intro hne
+      apply hle
+      have : ('a' == c) = false := by simpa using Ne.symm hne
+      simp [ext, extKeyword, Gen.spelling, stripPrefix, mismatchExt, this]
+    subst hc
+    exact bound_keyword .Array _ _ rest o rfl (by decide) (lexOne_a rest) (by decide) (by decide) (by decide) (by decide) h hf
+  · have hc : c = 'o' := by
+      apply Classical.byContradiction; intro hne
+      apply hle
+      have : ('o' == c) = false := by simpa using Ne.symm hne
+      simp [ext, extKeyword, Gen.spelling, stripPrefix, mismatchExt, this]
+    subst hc
+    exact bound_keyword .Of _ _ rest o rfl (by decide) (lexOne_o rest) (by decide) (by decide) (by decide) (by decide) h hf
+  · have hc : c = 'p' := by
+      apply Classical.byContradiction; intro hne
+      apply hle
+      have : ('p' == c) = false := by simpa using Ne.symm hne
+      simp [ext, extKeyword, Gen.spelling, stripPrefix, mismatchExt, this]
+    subst hc
+    exact bound_keyword .Proc _ _ rest o rfl (by decide) (lexOne_p rest) (by decide) (by decide) (by decide) (by decide) h hf
+  · have hc : c = 'r' := by
+      apply Classical.byContradiction; intro hne
+      apply hle
+      have : ('r' == c) = false := by simpa using Ne.symm hne
+      simp [ext, extKeyword, Gen.spelling, stripPrefix, mismatchExt, this]
+    subst hc
+    exact bound_keyword .Ref _ _ rest o rfl (by decide) (lexOne_r rest) (by decide) (by decide) (by decide) (by decide) h hf
+  · have hc : c = 't' := by
+      apply Classical.byContradiction; intro hne
+      apply hle
+      have : ('t' == c) = false := by simpa using Ne.symm hne
+      simp [ext, extKeyword, Gen.spelling, stripPrefix, mismatchExt, this]
+    subst hc
+    exact bound_keyword .Type _ _ rest o rfl (by decide) (lexOne_t rest) (by decide) (by decide) (by decide) (by decide) h hf
+  · have hc : c = 'v' := by
+      apply Classical.byContradiction; intro hne
+      apply hle
+      have : ('v' == c) = false := by simpa using Ne.symm hne
+      simp [ext, extKeyword, Gen.spelling, stripPrefix, mismatchExt, this]
+    subst hc
+    exact bound_keyword .Var _ _ rest o rfl (by decide) (lexOne_v rest) (by decide) (by decide) (by decide) (by decide) h hf
+  · -- char: a lone tick at the end of the text; Unknown wins (look-ahead 1)
+    have hc : c = '\'' := by
+      apply Classical.byContradiction; intro hne
+      exact hle (by simp [ext, extFirst, hne])
+    subst hc
+    have hrest : rest = [] := by
+      cases rest with
+      | nil => rfl
+      | cons d ds =>
+        exfalso
+        have hf' : lexChar ('\'' :: d :: ds) = none := hf
+        unfold lexChar at hf'
+        split at hf'
+        · split at hf' <;> simp at hf'
+        · split at hf' <;> simp at hf'
+        · rename_i hne; exact hne d ds rfl
+    subst hrest
+    rw [lexOne_tick] at h
+    simp [tailAlts, firstMatch, lexItem, lexChar, lexHex, lexInt, lexIdent, lexUnknown, isDigit, isAsciiDigitN, isAlpha, isAsciiAlphaN] at h
+    subst h
+    simp [ext, extFirst]; decide
+  · -- hex: the text starts with '0' but not "0x"; Int wins (look-ahead 1)
+    have hc : c = '0' := by
+      apply Classical.byContradiction; intro hne
+      exact hle (by simp [ext, extFirst, hne])
+    subst hc
+    rw [lexOne_zero] at h
+    obtain ⟨o', ho'⟩ := lexInt_digit (c := '0') (rest := rest) (by decide)
+    have hch : lexChar ('0' :: rest) = none := lexChar_ne (by decide)
+    simp only [tailAlts, firstMatch, lexItem, hch] at h
+    rw [show lexHex ('0' :: rest) = none from hf, ho'] at h
+    cases h
+    have hk := kind_int ho'
+    have hp := (lexInt_ok ho').pos
+    rw [hk]
+    have : ext .hex ('0' :: rest) = 2 := by simp [ext, extFirst]
+    rw [this]
+    have : Gen.lookAhead Kind.Int = 1 := by decide
+    omega
+  · exact absurd (by simp [ext]) hle
+  · exact absurd (by simp [ext]) hle
+  · exact absurd (by simp [ext]) hle
+
+/-- **Look-ahead locality of `Token::lex`.** -/
+theorem lexLocal : LexLocal := by
+  intro pre rest rest' o h hn hla
+  have hall := altLaOK_all
+  apply local_firstMatch (pre ++ rest) (pre ++ rest') o Gen.altOrder hall h
+  · -- agreement on o.n + lookAhead characters
+    have hle := lookAhead_le_one o.ty.kind
+    rcases hla with h0 | hh
+    · rw [h0, hn, take_len_add, take_len_add]; simp
+    · by_cases h0 : Gen.lookAhead o.ty.kind = 0
+      · rw [h0, hn, take_len_add, take_len_add]; simp
+      · have h1 : Gen.lookAhead o.ty.kind = 1 := by omega
+        rw [h1, hn, take_len_add, take_len_add]
+        congr 1
+        cases rest <;> cases rest' <;> simp_all
+  · exact bound (pre ++ rest) o h
+
 end Spl
